@@ -1,6 +1,6 @@
 """Fills DESIGN.md section 9 (RESULTS-TABLE-1/2, RESULTS-THOROUGH placeholders or the previously generated
 blocks between the BEGIN/END markers) from evidence/*.json, seeded/*/meta.json, sweep logs and a thorough log.
-usage: tools_results_md.py <thorough log> <sweep log> [<sweep log> ...]"""
+usage: tools_results_md.py results/thorough-seed1.log results/sweep-rounds-1-2.log results/sweep-round-3.log"""
 import glob
 import json
 import os
